@@ -5,7 +5,7 @@
    Go                                                model
    keyset/handle.go hasSecrets                       Untrusted.has_secrets / secret_material
    NewHandleWithNoSecrets / ReadWithNoSecrets        Untrusted.handle_no_secrets / read_no_secrets
-   entriesToProtoKeyset (SerializeKey per entry)     proto_of_handle (out_material, out_prefix)
+   entriesToProtoKeyset (SerializeKey per entry)     proto_of_handle (out_material, Untrusted.shown_prefix)
    Handle.WriteWithNoSecrets                         write_no_secrets
    entriesToKeysetInfo, Handle.KeysetInfo/String     info_of_handle (String = text_of_info of it)
    getKeysetInfo (beside the ciphertext)             info_of_keyset
@@ -32,12 +32,14 @@ Definition out_material (e : entry) : N :=
   | PEcdsaPub _ _ _ _ | PRsaPkcs1Pub _ _ _ | PRsaPssPub _ _ _ _ => km_public
   | PEcdsaPriv _ _ _ _ _ => km_private
   | PFallback _ => emat e
-  | d => more_material d      (* the key types C14 modelled later; outside C13's scope *)
+  | d => more_material d      (* Ed25519, RSA private, ECIES, HPKE, streaming AEAD, JWT, ML-DSA public, SLH-DSA *)
   end.
 
-(* entryToProtoKey *)
+(* entryToProtoKey: the prefix type is the one the key's serializer writes
+   (Untrusted.shown_prefix: LEGACY comes back as CRUNCHY for the AEAD, DAEAD and
+   ECIES types, the streaming AEAD keys are always written as RAW) *)
 Definition proto_key_of_entry (e : entry) : pkey :=
-  mkPK (Some (mkKD (eurl e) (evalue e) (out_material e))) (estatus e) (eid e) (out_prefix e).
+  mkPK (Some (mkKD (eurl e) (evalue e) (out_material e))) (estatus e) (eid e) (shown_prefix e).
 
 (* the loop of entriesToProtoKeyset / entriesToKeysetInfo: the id of the last
    entry flagged primary *)
@@ -55,7 +57,7 @@ Record keyset_info := mkInfo { i_primary : N; i_keys : list key_info }.
 (* entriesToKeysetInfo (Handle.KeysetInfo; Handle.String is its text form) *)
 Definition info_of_handle (h : handle) : keyset_info :=
   mkInfo (primary_id h)
-         (map (fun e => mkKI (eurl e) (estatus e) (eid e) (out_prefix e)) h).
+         (map (fun e => mkKI (eurl e) (estatus e) (eid e) (shown_prefix e)) h).
 
 (* getKeysetInfo / getKeyInfo on a Keyset message *)
 Definition key_info_of (k : option pkey) : key_info :=
@@ -103,6 +105,13 @@ Definition write_no_secrets (h : handle) : outcome bytes :=
          if has_secrets ks then Err else Ok (ser_keyset ks)
   end.
 
+(* ---- insecurecleartextkeyset.Write through the binary writer ---- *)
+Definition write_cleartext_binary (h : handle) : outcome bytes :=
+  match h with
+  | [] => Err
+  | _ => Ok (ser_keyset (proto_of_handle h))
+  end.
+
 (* ---- Handle.WriteWithAssociatedData ---- *)
 Section Encrypted.
 (* the key-encryption AEAD's Encrypt, with its randomness made explicit *)
@@ -122,4 +131,21 @@ Definition write_encrypted_binary (h : handle) (iv ad : bytes) : outcome bytes :
   | [] => Err
   | _ => Ok (ser_encrypted_binary (encrypted_ct h iv ad))
   end.
+
+(* ---- a writer used for several writes ----
+   keyset.BinaryWriter holds nothing but its io.Writer: what a write emits is a
+   function of that write's own arguments, whatever was written before through
+   the same writer (Handle.Write(w, kek) is WriteWithAssociatedData with empty
+   associated data).  One element of the result per write, in order. *)
+Inductive wop :=
+| WClear (h : handle)                        (* insecurecleartextkeyset.Write *)
+| WEncrypted (h : handle) (iv ad : bytes)    (* Handle.Write / WriteWithAssociatedData *)
+| WNoSecrets (h : handle).                   (* Handle.WriteWithNoSecrets *)
+Definition write_op (o : wop) : outcome bytes :=
+  match o with
+  | WClear h => write_cleartext_binary h
+  | WEncrypted h iv ad => write_encrypted_binary h iv ad
+  | WNoSecrets h => write_no_secrets h
+  end.
+Definition writer_history (ops : list wop) : list (outcome bytes) := map write_op ops.
 End Encrypted.
